@@ -70,12 +70,14 @@ class ECell:
             self.algs = [self.alg]
         # several key-agreement recipients need not share a curve (ECDH-1PU recipients share the sender's)
         self.restricted = rng.random() < 0.3
+        self.token_as = "bytes" if rng.random() < 0.3 else "str"       # compact tokens are accepted as str and as bytes
+        self.plaintext_as = "str" if rng.random() < 0.25 else "bytes"  # encrypt_compact documents bytes | str
         self.curves = [self.curve] * n
         if n > 1 and not g.is_1pu(self.alg) and rng.random() < 0.5:
             self.curves = [rng.choice(g.ECDH_CURVES) for _ in range(n)]
 
     def desc(self):
-        return {"algs": self.algs, "enc": self.enc, "zip": self.zip, "curve": self.curve, "curves": self.curves, "restricted_keys": self.restricted, "form": self.form, "plain": self.plain,
+        return {"algs": self.algs, "enc": self.enc, "zip": self.zip, "curve": self.curve, "curves": self.curves, "restricted_keys": self.restricted, "token_as": self.token_as, "plaintext_as": self.plaintext_as, "form": self.form, "plain": self.plain,
                 "aad": self.aad, "apu": self.apu, "placement": self.placement, "key_via": self.key_via, "zip_unprotected": self.zip_unprotected}
 
 
@@ -116,7 +118,13 @@ def produce(cell: ECell, rng):
         pub = j.key(gen.public_jwk(recs[0]["key"]))
         if cell.key_via == "keyset":
             pub = j.KeySet([pub])
-        o = call(j.jwe.encrypt_compact, protected, plaintext, pub, algorithms=allow, sender_key=sender)
+        given_pt = plaintext
+        if cell.plaintext_as == "str":
+            try:
+                given_pt = plaintext.decode("utf-8")
+            except UnicodeDecodeError:
+                pass
+        o = call(j.jwe.encrypt_compact, protected, given_pt, pub, algorithms=allow, sender_key=sender)
     else:
         rec_headers = []
         if n == 1 and cell.placement == "protected":
@@ -164,7 +172,8 @@ def consume(p: EProduced, token=None):
     key = ks[0] if len(ks) == 1 and p.cell.key_via != "keyset" else j.KeySet(ks)
     sender = j.key(gen.public_jwk(p.recs[0]["sender"])) if p.recs[0]["sender"] else None
     if isinstance(tok, str):
-        return call(j.jwe.decrypt_compact, tok, key, algorithms=p.allow, sender_key=sender)
+        arg = tok.encode("utf-8") if p.cell.token_as == "bytes" else tok
+        return call(j.jwe.decrypt_compact, arg, key, algorithms=p.allow, sender_key=sender)
     return call(j.jwe.decrypt_json, copy.deepcopy(tok), key, algorithms=p.allow, sender_key=sender)
 
 
